@@ -6,9 +6,12 @@
 // full hash collisions, sums near 2^64), for every configured size of the
 // design's list. Each history is recorded at the client boundary with
 // call/return stamps from one monotonic clock and a unique value per Store and
-// then decided offline, per key, by porcupine against a nondeterministic
-// "may-forget" register (and, independently, by direct checks that classify a
-// bad lookup as foreign / expired / overwritten / flushed). Len() is sampled
+// then decided offline, per key, against a nondeterministic "may-forget"
+// register: by porcupine, or - fast path, because porcupine's search is
+// exponential in the operations in flight - by a constructed linearisation that
+// is validated through the same model and cross-checked by porcupine on a
+// sample (certify.go); and, independently, by direct checks that classify a
+// bad lookup as foreign / expired / overwritten / flushed. Len() is sampled
 // throughout and at the end of every history, and a capacity-pressure workload
 // stores several times more live keys than the documented bound
 // max(size, 1024). pkg/concurrent_lru + pkg/lru get the same treatment as a
@@ -237,7 +240,13 @@ func judgeHistory(h *history) (found bool) {
 	for i, k := range ks {
 		v := verdicts[i]
 		rep.Count("porcupine_partitions", 1)
-		rep.Count("porcupine_"+v.Result, 1)
+		rep.Count(map[string]string{
+			"ok": "porcupine_ok", "illegal": "porcupine_illegal", "unknown": "porcupine_unknown_timeout",
+			"skipped":                    "violating_partitions_beyond_witness_budget_not_rechecked",
+			"ok-certified":               "partitions_ok_by_validated_witness_linearization",
+			"ok-certified-and-porcupine": "partitions_ok_by_witness_and_by_porcupine",
+			"disagree":                   "oracle_disagreements",
+		}[v.Result], 1)
 		rep.Count("partition_ops_total", int64(len(parts[k])))
 		rep.Max("partition_ops_max", int64(len(parts[k])))
 		witness := func() map[string]any {
@@ -511,10 +520,12 @@ func main() {
 	caselog = evid.OpenCaseLog()
 	runtime.GOMAXPROCS(ncpu)
 	debug.SetGCPercent(400) // the offline checker allocates heavily; under -race the collector is the bottleneck
-	rep.SetRule("case = one short concurrent history (8-16 goroutines x 100-300 seeded ops Get/Store/Flush/Len plus a Len sampler and a concurrent Range, sweeper every 0.2-5 ms, expiries within +-5 ms of now, 4-48 keys whose Sum() collides per shard / fully / near 2^64, sizes -5,0,1,63,64,65,100,1023,1024,1100,4096, GOMAXPROCS 1/2/4/16) against pkg/cache or the sharded LRU, or one capacity-pressure run (2-3x more live keys than max(size,1024)); a history is non-trivial if it has at least one hit, one miss on a key with a completed store, and one lookup overlapping a store/flush of the same key by another goroutine; a capacity case if more distinct keys were offered than the bound; distinct = per-key sequence of observed outcomes (hit/miss/store/flush order) x configuration")
+	rep.SetRule("case = one short concurrent history (8-16 goroutines x 100-300 seeded ops Get/Store/Flush/Len (LRU: also Del/Clean) plus a Len sampler and a concurrent Range, sweeper every 0.2-5 ms, expiries within +-5 ms of now, 4-48 keys whose Sum() collides per shard / fully / near 2^64, sizes -5,0,1,63,64,65,100,1023,1024,1100,4096, GOMAXPROCS 1/2/4/16) against pkg/cache or the sharded LRU, or one capacity-pressure run (2-3x more live keys than max(size,1024)); a history is non-trivial if it has at least one hit, one miss on a key with a completed store, and one lookup overlapping a store/flush of the same key by another goroutine; a capacity case if more distinct keys were offered than the bound; distinct = per-key sequence of observed outcomes (hit/miss/store/flush order) x configuration")
 	rep.Assume("call/return stamps and expiry times come from the same process-wide monotonic clock that time.Now() carries; a lookup is judged against its call stamp (taken before the call), so every outcome consistent with some instant inside the call is accepted")
 	rep.Assume("Flush (and LRU Clean) are copied into every key partition as a per-key delete somewhere inside their call interval: no cross-key atomicity is demanded")
 	rep.Assume("the model lets the store forget any value at any time (eviction, sweeps): only wrong hits are violations, never misses")
+	rep.Assume("a key partition is accepted either by porcupine (Ok) or by an explicitly constructed linearisation that was validated by replaying it through the same model step function and checking the real-time order; a seeded sample of the latter is also given to porcupine; 'illegal' only comes from porcupine or from the direct checks")
+	rep.Assume("documented API behaviour: a Store whose expiry lies before its own return stamp may be a no-op (cache.go: 'If expirationTime is before time.Now(), Store is an noop') and then does not count as an overwrite")
 	rep.Assume("memory races are decided by the Go race detector (driver post-processes its log); this program only produces the concurrent accesses")
 
 	if pf := os.Getenv("C11_PROF"); pf != "" {
@@ -536,8 +547,8 @@ func main() {
 	}
 
 	rng := rand.New(rand.NewSource(rep.Seed))
-	nCache := rep.Pick(400, 4000)
-	nLRU := rep.Pick(100, 800)
+	nCache := rep.Pick(600, 6000)
+	nLRU := rep.Pick(150, 1200)
 	hs := genHistories(rng, nCache, "cache")
 	ls := genHistories(rng, nLRU, "lru")
 	cs := genCapacity(rng, rep.Thorough())
@@ -603,7 +614,7 @@ func main() {
 	if rep.Get("sweeper_emptied_store_after_history") == 0 {
 		rep.Inconclusive("the expiry sweeper was never observed to remove entries")
 	}
-	if rep.Get("porcupine_ok")+rep.Get("porcupine_illegal")+rep.Get("porcupine_ok-certified-and-porcupine") == 0 {
+	if rep.Get("porcupine_ok")+rep.Get("porcupine_illegal")+rep.Get("partitions_ok_by_witness_and_by_porcupine") == 0 {
 		rep.Inconclusive("no partition was decided by the checker")
 	}
 	stopProf()
